@@ -95,9 +95,13 @@ class SpecArray(object):
     def dd(self):
         """Direction resolution float."""
         if self.dir is not None and len(self.dir) > 1:
-            # spacing of the direction grid, wherever the stored sequence starts
-            dirs = np.sort(self.dir.values)
-            return abs(float(dirs[1] - dirs[0]))
+            # spacing of the direction grid, wherever the stored sequence starts:
+            # smallest gap between distinct directions, the gap across 0/360 included
+            dirs = np.unique(self.dir.values)
+            if dirs.size < 2:
+                return 1.0
+            gaps = np.append(np.diff(dirs), dirs[0] + 360 - dirs[-1])
+            return abs(float(gaps[gaps > 0].min()))
         else:
             return 1.0
 
